@@ -758,8 +758,10 @@ class AndMaybeMatcher(AdditiveBiMatcher):
         elif not b_active:
             return a.replace(minquality)
 
-        new_a = a.replace(minquality - b.max_quality())
-        new_b = b.replace(minquality - a.max_quality())
+        # (Without a minimum quality there is nothing to prune: do not hand
+        # the sub-matchers a threshold made only of the other side's quality)
+        new_a = a.replace(minquality - b.max_quality() if minquality else 0)
+        new_b = b.replace(minquality - a.max_quality() if minquality else 0)
         if new_a is not a or new_b is not b:
             # If one of the sub-matchers changed, return a new AndMaybe
             return self.__class__(new_a, new_b)
